@@ -160,18 +160,21 @@ static void upipe_tblk_handle_pic(struct upipe *upipe, struct uref *uref,
                                                       uref->ubuf, chroma);
     if (unlikely(ubuf == NULL)) {
         /* We have to memcpy the thing. */
-        size_t vsize, stride;
-        uint8_t vsub;
-        if (unlikely(!ubase_check(uref_pic_size(uref, NULL, &vsize,
-                                                NULL)) ||
+        size_t hsize, vsize, stride;
+        uint8_t macropixel, hsub, vsub, macropixel_size;
+        if (unlikely(!ubase_check(uref_pic_size(uref, &hsize, &vsize,
+                                                &macropixel)) ||
                      !ubase_check(uref_pic_plane_size(uref, chroma,
-                             &stride, NULL, &vsub, NULL)))) {
+                             &stride, &hsub, &vsub, &macropixel_size)))) {
             uref_free(uref);
             upipe_throw_error(upipe, UBASE_ERR_INVALID);
             return;
         }
 
-        size_t size = stride * vsize / vsub;
+        /* the last line stops at its last visible pixel */
+        size_t lines = vsize / vsub;
+        size_t size = lines ? stride * (lines - 1) +
+                              hsize / macropixel / hsub * macropixel_size : 0;
         ubuf = ubuf_block_alloc(upipe_tblk->ubuf_mgr, size);
         if (unlikely(ubuf == NULL)) {
             uref_free(uref);
